@@ -102,6 +102,8 @@ static struct {
   int replay_diverged;
   // progress
   uint64_t G;
+  uint64_t marker, marker_at_half;
+  int half_seen;
   int confirm_active;
   uint64_t confirm_G;
   vs_quiescence_fn qcb;
@@ -118,6 +120,8 @@ static vs_result_t vs_static_res;
 vs_result_t* vs_res = &vs_static_res;
 int vs_real_sleep_calls = 0;
 void (*vs_on_real_sleep)(const char*) = 0;
+const char* (*vs_describe_state)(void) = 0;
+int (*vs_idle_context)(void) = 0;
 
 static vthread_t* const th0 = &vs.th[0];
 __attribute__((constructor(101))) static void vs_ctor(void) {
@@ -610,19 +614,31 @@ static void set_next_event_replay(void) {
   }
 }
 
+static inline uint64_t fair_gap(void) { return 24 + (rnd() % 80); }  // irregular on purpose: a fixed period can resonate with the code under test
 static void engage_fair(void) {
   if (!vs.fair) {
     vs.fair = 1;
     vs_label_add("fair_tail", 1);
   }
-  vs.next_event = vs.points + 64;
+  vs.next_event = vs.points + fair_gap();
 }
 
 static void budget_check(void) {
+  if (!vs.half_seen && vs.points > vs.cfg.hard_budget / 2) {
+    vs.half_seen = 1;
+    vs.marker_at_half = vs.marker;
+  }
   if (vs.points > vs.cfg.hard_budget) {
     vs.in_rt++;
-    vs_violation("livelock", "no termination after %llu points (fair tail from %llu)", (unsigned long long)vs.points,
-                 (unsigned long long)vs.cfg.soft_budget);
+    if (vs.marker != vs.marker_at_half)
+      vs_inconclusive("step budget exhausted while the program was still advancing (slow, not stuck)");
+    char tb[160];
+    int o = 0;
+    for (int i = 0; i < vs.nth && o < 120; i++)
+      o += snprintf(tb + o, sizeof tb - o, "T%d[st%d idle%d parked%d] ", i, vs.th[i].state, vs.th[i].idle_rounds, vs.th[i].parked_idle);
+    vs_violation("livelock", "no program operation completed during the last %llu of %llu scheduling points (fair tail from %llu); %s%s",
+                 (unsigned long long)(vs.cfg.hard_budget / 2), (unsigned long long)vs.points, (unsigned long long)vs.cfg.soft_budget, tb,
+                 vs_describe_state ? vs_describe_state() : "");
   }
 }
 
@@ -687,7 +703,7 @@ static void slow_path(void) {
   }
   if (vs.fair || vs.cfg.strategy == VS_STRAT_FAIR) {
     vthread_t* nt = pick_next_rr();
-    vs.next_event = vs.points + 64;
+    vs.next_event = vs.points + fair_gap();
     if (nt && nt != vs.cur) {
       vs_res->involuntary++;
       switch_to(nt);
@@ -935,6 +951,8 @@ int vs_run_inproc(const vs_config_t* cfg, vs_main_fn fn, void* arg) {
   vs.replay_idx = 0;
   vs.replay_diverged = 0;
   vs.G = 0;
+  vs.marker = vs.marker_at_half = 0;
+  vs.half_seen = 0;
   vs.confirm_active = 0;
   vs.qcb = 0;
   vs.ticks_delivered = vs.ticks_read = 0;
@@ -1378,6 +1396,7 @@ void vs_timer_tick(uint64_t n) {
 }
 uint64_t vs_ticks_delivered(void) { return vs.ticks_delivered; }
 void vs_progress(void) { vs.G++; }
+void vs_program_advanced(void) { vs.marker++; }
 void vs_set_quiescence_cb(vs_quiescence_fn fn) { vs.qcb = fn; }
 
 int epoll_wait(int epfd, struct epoll_event* ev, int maxev, int timeout) {
@@ -1395,6 +1414,9 @@ int epoll_wait(int epfd, struct epoll_event* ev, int maxev, int timeout) {
     return n;
   }
   if (n < 0) return n;
+  // a poll issued from anywhere else than a kernel thread's idle loop (e.g. from a yielding fiber) says
+  // nothing about idleness
+  if (vs_idle_context && !vs_idle_context()) return 0;
   if (t->last_G == vs.G) {
     t->idle_rounds++;
   } else {
